@@ -18,7 +18,8 @@ CONSTANTS
   MaxOps,       \* bound on user operations
   MaxInv,       \* bound on invocations
   RecordBefore, \* TRUE: input state captured before the script (repair of F3)
-  GuardNoInput  \* TRUE: a target without input is never skipped (repair of F11)
+  GuardNoInput, \* TRUE: a target without input is never skipped (repair of F11)
+  Foreigns      \* TRUE: stale / foreign complete records may appear in a target's state file
 
 T == 1..NT
 Absent == [m |-> -1, c |-> -1]
@@ -155,7 +156,7 @@ Corrupt(t) ==      \* truncated, overwritten, foreign or absurd-length state fil
 \* somebody copies the (complete) state file of target u over that of target t, or an old record of t itself survives a
 \* change of t's declarations: the record decodes but was not written by a run of t as declared now
 Foreign(t) ==
-  /\ nOps < MaxOps /\ nOps' = nOps + 1 /\ pc[t] = "idle"
+  /\ Foreigns /\ nOps < MaxOps /\ nOps' = nOps + 1 /\ pc[t] = "idle"
   /\ \E Si \in SUBSET {p \in Paths : fs[p] # Absent}, So \in SUBSET {p \in Paths : fs[p] # Absent} :
        rec' = [rec EXCEPT ![t] = [k |-> "full", i |-> Snap(Si), o |-> Snap(So)]]
   /\ foreign' = [foreign EXCEPT ![t] = TRUE]
